@@ -46,9 +46,12 @@ class _Member:
 
 def _traced():
     from cflib.crazyflie.swarm import Swarm
-    return [Swarm.parallel_safe, Swarm._thread_function_wrapper, Swarm.Reporter.report_error,
-            Swarm.Reporter.is_error_reported, Swarm.open_links, Swarm.close_links, Swarm.parallel, Swarm.sequential,
-            Swarm._process_args_dict]
+    # every function of the Swarm class and of its error reporter (found by walking the classes, so that private helpers
+    # may be renamed, added or extracted without hiding their lines from the scheduler)
+    import cflib.crazyflie.swarm as sm
+    return cfh.functions_of(Swarm, getattr(Swarm, 'Reporter', None), module=sm,
+                            skip=('__init__', '__enter__', '__exit__', 'get_estimated_positions', 'reset_estimators',
+                                  'wait_for_params', '__get_estimated_position', '__reset_estimator'))
 
 
 def exec_c19(cfg, devs):
@@ -108,7 +111,7 @@ def exec_c19(cfg, devs):
         except Exception as e:  # noqa
             ex.log('raised', type(e).__name__, type(e.__cause__).__name__ if e.__cause__ is not None else None,
                    str(e.__cause__) if e.__cause__ is not None else str(e))
-        info['is_open'] = swarm._is_open
+        info['is_open'] = getattr(swarm, '_is_open', None)       # private flag: judged only if it can be seen
         if mode == 'open' and fail:
             # the swarm must be openable again (not stuck in "Already opened")
             for m in members.values():
@@ -209,13 +212,13 @@ def _judge(p, cfg, devs, ex, info, uris, args_dict):
                     viol('closed_while_still_opening', 'close_link began before every open attempt had finished')
             if final is None or final[1] != 'raised':
                 viol('failed_open_not_raised', 'open_links returned normally although %d links failed' % len(fail))
-            if info.get('is_open'):
+            if info.get('is_open') is True:
                 viol('open_flag_after_failure', 'swarm marked open after a failed open_links')
             if info.get('reopen') != 'ok':
                 viol('cannot_reopen', 'open_links after the failure: %r' % (info.get('reopen'),))
         else:
             if mode == 'open':
-                if final is None or final[1] != 'returned' or not info.get('is_open'):
+                if final is None or final[1] != 'returned' or info.get('is_open') is False:
                     viol('open_failed_without_error', 'open_links: %r, is_open=%r' % (final, info.get('is_open')))
             else:
                 if final is None or final[1] != 'raised':
@@ -223,7 +226,7 @@ def _judge(p, cfg, devs, ex, info, uris, args_dict):
                 after = [e for e in ev[end_pos + 1:] if e[1].startswith('open.') or e[1] == 'close']
                 if after:
                     viol('second_open_touched_members', 'second open_links called %r' % ([a[1:] for a in after],))
-                if not info.get('is_open'):
+                if info.get('is_open') is False:
                     viol('second_open_closed_swarm', 'swarm no longer open after the refused second open_links')
 
 
